@@ -201,6 +201,7 @@ def evaluate(case, drv):
             if b["v"] != "ok":
                 continue
             res["nontrivial"] = True
+            res["stats"]["c15.compared"] = res["stats"].get("c15.compared", 0) + 1
             try:
                 want = renamed_dump(b["out"][0], mapping)
                 got = ast.dump(ast.parse(r["out"][0]))
@@ -217,3 +218,8 @@ def evaluate(case, drv):
     if case["id"].endswith("3"):
         res["sample"] = {"id": case["id"], "base": case["src"][:300]}
     return res
+
+
+def coverage(tier, agg):
+    return {"distinct_nontrivial": int(agg["stats"].get("c15.compared", 0)),
+            "explanation": "distinct_nontrivial = (renaming, annotate) pairs of accepted bases whose outputs were compared as ASTs"}
